@@ -103,7 +103,7 @@ CheckerAgrees(ln, base, new) ==
 
 THandle == /\ Live /\ Ln.e = "handle" /\ Ln.a \in Actors(P)
            /\ \/ st.ph[Ln.a] = "issued"
-              \/ MoreSub(P, st, Ln.a) /\ Ln.a \notin pend       \* next simcall of the same operation (put = isend + wait)
+              \/ MoreSub(P, st, Ln.a) /\ Ln.a \notin pend /\ ~st.susp[Ln.a]      \* next simcall of the same operation (put = isend + wait)
            /\ LET base == IF st.ph[Ln.a] = "issued" THEN st ELSE NextSub(P, st, Ln.a) IN
               /\ (P.gran = "mc" \/ CallOk(Cur(P, base, Ln.a).op, base.sub[Ln.a], Ln.call))
               /\ (P.gran = "mc" => EnabledMC(P, base, Ln.a))        \* C43: the checker only fires enabled transitions
@@ -113,6 +113,17 @@ THandle == /\ Live /\ Ln.e = "handle" /\ Ln.a \in Actors(P)
               /\ pend' = pend \cup NewlyAnswered(base, st')
            /\ fin' = st'.undef          \* undefined behaviour reached: the rest of this execution is not examined
            /\ Consume /\ UNCHANGED <<pid>>
+
+\* C39/C43: the actors the checker found enabled / disabled (hook H4, RemoteApp::get_actors_status) once the application has
+\* settled after a step are exactly those whose next transition the specification enables / disables
+EnabledNow(a) == LET b == IF MoreSub(P, st, a) THEN NextSub(P, st, a) ELSE st IN
+                 b.ph[a] \in {"run", "issued"} /\ b.pc[a] <= NOps(P, a) /\ EnabledMC(P, b, a)
+PendingNow(a) == st.ph[a] = "issued" \/ MoreSub(P, st, a)
+TCStatus == /\ Live /\ Ln.e = "cstatus" /\ P.gran = "mc"
+            /\ \A i \in 1..Len(Ln.en) : Ln.en[i] \in Actors(P) /\ EnabledNow(Ln.en[i])
+            /\ \A i \in 1..Len(Ln.dis) : Ln.dis[i] \in Actors(P) /\ PendingNow(Ln.dis[i]) /\ ~EnabledNow(Ln.dis[i])
+            /\ \A a \in Actors(P) : PendingNow(a) => \E i \in 1..Len(Ln.en) + Len(Ln.dis) : (Ln.en \o Ln.dis)[i] = a
+            /\ Consume /\ UNCHANGED <<pid, st, pend, fin>>
 
 \* an answer sent by the kernel: either one the semantics already produced, or the completion of a timer that is due
 TAnswer == /\ Live /\ Ln.e = "answer" /\ Ln.a \in Actors(P)
@@ -160,6 +171,7 @@ LateWaitOnDeadPeer(a) ==
   /\ (st.act[c].src # 0 /\ st.hoff[st.act[c].src]) \/ (st.act[c].dst # 0 /\ st.hoff[st.act[c].dst])
 TRet == /\ Live /\ Ln.e = "ret" /\ Ln.a \in Actors(P)
         /\ st.ph[Ln.a] = "answered" /\ Ln.a \notin pend /\ ~MoreSub(P, st, Ln.a)
+        /\ ~st.susp[Ln.a]                                  \* C11: a suspended actor makes no progress until resumed
         /\ LET adj == IF st.res[Ln.a] = "true" /\ Ln.res = "false" /\ FreshFail(Ln.a) THEN [st EXCEPT !.res[Ln.a] = "false"]
                       ELSE IF st.res[Ln.a] = "ok" /\ Ln.res = "network_failure" /\ LateWaitOnDeadPeer(Ln.a)
                       THEN [st EXCEPT !.res[Ln.a] = "network_failure", !.rval[Ln.a] = 0]
@@ -172,22 +184,26 @@ TRet == /\ Live /\ Ln.e = "ret" /\ Ln.a \in Actors(P)
            /\ pend' = pend \cup NewlyAnswered(adj, st')      \* a terminating actor makes its communications in flight fail
         /\ Consume /\ UNCHANGED <<pid, fin>>
 
+\* every produced answer has been sent, except to suspended actors: the end of the sleep activity of a suspended actor (the
+\* actor it joined has died) is processed by the kernel at its next clock update, possibly never
+SuspPend == \A a \in pend : st.susp[a]
+NonePend == pend = {}
 \* the clock moves only when nobody can run, every produced answer has been sent, and exactly to the next date
 TAdv == /\ Live /\ Ln.e = "adv"
         /\ \/ Ln.clk = st.now /\ st' = st
-           \/ /\ Ln.clk > st.now /\ pend = {} /\ CanAdvance(P, st)
+           \/ /\ Ln.clk > st.now /\ SuspPend /\ CanAdvance(P, st)
               /\ (TimerDates(P, st) # {} => Ln.clk <= MinDate(TimerDates(P, st)))
               \* C03: exactly to the next date (the end of the latency phase of a communication is an internal date of the
               \* network model at which nothing observable happens: allowed when the link has a latency)
               /\ ((FreeRunning(st) = {} /\ ~(P.lat > 0 /\ Running(st) # {})) => Ln.clk = MinDate(TimerDates(P, st)))
               /\ st' = [st EXCEPT !.now = Ln.clk]
-           \/ /\ Ln.clk = -7 /\ ~P.timed /\ pend = {} /\ ~SomeReady(P, st)       \* off-grid date: only programs
+           \/ /\ Ln.clk = -7 /\ ~P.timed /\ NonePend /\ ~SomeReady(P, st)       \* off-grid date: only programs
               /\ TimerDates(P, st) = {} /\ FreeRunning(st) # {} /\ st' = st          \* without timed operations
         /\ Consume /\ UNCHANGED <<pid, pend, fin>>
 
 TEnd == /\ More /\ ~fin /\ Ln.e = "end"
-        /\ \/ Ln.how = "normal" /\ ~st.aborted /\ AllDone(P, st) /\ pend = {}
-           \/ Ln.how = "deadlock" /\ Deadlocked(P, st) /\ pend = {}
+        /\ \/ Ln.how = "normal" /\ ~st.aborted /\ AllDone(P, st) /\ NonePend
+           \/ Ln.how = "deadlock" /\ Deadlocked(P, st) /\ SuspPend
            \/ /\ Ln.how \in {"abort", "signal"}       \* xbt_assert: in the handler, or actor-side on the same condition before the simcall
               /\ \/ st.aborted
                  \/ \E a \in Actors(P) : st.ph[a] = "issued" /\ Handle(P, st, a).aborted
@@ -195,11 +211,11 @@ TEnd == /\ More /\ ~fin /\ Ln.e = "end"
 
 \* end of an execution explored by simgrid-mc (the application is simply abandoned by the checker): the outcome reached,
 \* as the specification sees it, is printed for the harness (C38: set of outcomes covered by the exploration)
-TXEnd == /\ More /\ ~fin /\ Ln.e = "xend" /\ pend = {}
+TXEnd == /\ More /\ ~fin /\ Ln.e = "xend" /\ NonePend
          /\ PrintT(<<"TOUT", Ln.run, SomeReady(P, st), ToJson(Outcome(P, st))>>)
          /\ fin' = TRUE /\ Consume /\ UNCHANGED <<pid, st, pend>>
 
-Next == TXEnd \/ TReset \/ TSkip \/ TIssueDying \/ TKilled \/ TOnExit \/ TIssue \/ THandle \/ TAnswer \/ TSilentFire \/ TSilentComplete \/ TSilentDaemonKill \/ TRet \/ TAdv \/ TEnd
+Next == TXEnd \/ TCStatus \/ TReset \/ TSkip \/ TIssueDying \/ TKilled \/ TOnExit \/ TIssue \/ THandle \/ TAnswer \/ TSilentFire \/ TSilentComplete \/ TSilentDaemonKill \/ TRet \/ TAdv \/ TEnd
 Spec == Init /\ [][Next]_vars
 
 I_MutexOwnership == fin \/ MutexOwnership(P, st)
